@@ -42,7 +42,7 @@ def gen_daqmx_layout(rng, one_buffer_per_channel=False):
                 same = [j for j in range(nbuf) if rows[j] == rows[b0]]
                 b = rng.choice(same)
             if kind == DIGITAL_LINE:
-                code = rng.choice([0, 2, 4])
+                code = rng.choice([0, 2, 4, 1, 3, 5])      # unsigned and signed raw types
             else:
                 code = rng.choice(list(DQ))
             sz = DQ[code][1]
@@ -51,7 +51,7 @@ def gen_daqmx_layout(rng, one_buffer_per_channel=False):
                 sz = 1
             byte_off = rng.randint(0, widths[b] - sz)
             if kind == DIGITAL_LINE:
-                off = byte_off * 8 + rng.randint(0, 8 * sz - 1 if sz == 1 else 7)
+                off = byte_off * 8 + rng.choice([7, rng.randint(0, 7)])
             else:
                 off = byte_off
             scalers.append((code, b, off, rng.randint(0, 255 if kind == DIGITAL_LINE else 2 ** 16), k + rng.choice([0, 0, 10])))
